@@ -12,6 +12,10 @@ def sha(b):
     return hashlib.sha256(b).digest()
 
 
+# the active-table field: 0 = primary, ANY other value = secondary (DIFF: 32-bit little-endian word, DISA: one byte)
+ACTIVE_VALUES = [0, 0, 0, 1, 1, 2, 0x80, 0xFF, 0x100, 0x10000, 0x80000000, 0xFFFFFF00]
+
+
 def gen_geom(rng, tier, upper=False):
     kind = rng.pick(['diff', 'diff', 'disa', 'disa2'])
     nparts = 2 if kind == 'disa2' else 1
@@ -37,7 +41,7 @@ def gen_geom(rng, tier, upper=False):
             if rng.chance(0.35):
                 p['uninit_up'] = [[rng.pick([3, 3, 2]), rng.randrange(8)] for _ in range(rng.pick([1, 1, 2]))]
     return {'desc_pad': rng.pick([0, 0, 0, 4, 0x14]),
-            'kind': 'disa' if kind.startswith('disa') else 'diff', 'active': rng.getrandbits(1), 'parts': parts,
+            'kind': 'disa' if kind.startswith('disa') else 'diff', 'active': rng.pick(ACTIVE_VALUES), 'parts': parts,
             'seed': rng.getrandbits(32)}
 
 
@@ -89,7 +93,7 @@ def build_disa_multi(rng, datas, geom):
     header[0x48:0x58] = struct.pack('<QQ', part_offs[0], len(parts[0]))
     if len(parts) == 2:
         header[0x58:0x68] = struct.pack('<QQ', part_offs[1], len(parts[1]))
-    header[0x68] = 1 if active else 0
+    header[0x68] = (active & 0xFF) or (1 if active else 0)       # any non-zero byte selects the secondary table
     header[0x6C:0x8C] = sha(table)
     f = bytearray(rng.rbytes(0x10)) + bytes(0xF0) + header
     f += bytes(sec_off - len(f))
